@@ -160,6 +160,19 @@ func scenarioC01(r *Run) {
 			nt = PickSize(c, maxPayload, "tgt-bytes")
 		}
 		plans[i] = plan{app: Partition(c, na, "app-part"), tgt: Partition(c, nt, "tgt-part")}
+		// think time (one connection in five): a writer pauses 1 s .. 2 min between two of its writes,
+		// so that data also flows on connections that are no longer new and have been silent for a while
+		if c.Chance(1, 5, "think-time") {
+			w := Op{Kind: "wait", N: c.OneOf("think-s", 1, 12, 31, 45, 120)}
+			if len(plans[i].app) > 0 && (len(plans[i].tgt) == 0 || c.Chance(1, 2, "think-side")) {
+				at := c.Pick(len(plans[i].app), "think-at")
+				plans[i].app = append(append(append([]Op{}, plans[i].app[:at]...), w), plans[i].app[at:]...)
+			} else if len(plans[i].tgt) > 0 {
+				at := c.Pick(len(plans[i].tgt), "think-at")
+				plans[i].tgt = append(append(append([]Op{}, plans[i].tgt[:at]...), w), plans[i].tgt[at:]...)
+			}
+			r.Count("connections_with_think_time")
+		}
 		sizes = append(sizes, fmt.Sprintf("%d/%d", na, nt))
 	}
 	r.Info["bytes(app/target)"] = sizes
